@@ -657,6 +657,23 @@ def _same_empty_definition(a, b):
 SEMANTIC = {"slot_search": _same_slot_search, "search_range": _same_search_range, "inside_growth": _same_inside_growth_table, "floor_div": _same_floor_div, "empty_definition": _same_empty_definition}
 
 
+def _const_values(facts, summary):
+    """The summary with named integer constants replaced by their values."""
+    import re
+    table = getattr(facts, "_const_value_table", None)
+    if table is None:
+        by = {}
+        for p_, c_ in facts.consts.items():
+            if "v" in c_ and str(c_.get("ty", ""))[:1] in ("u", "i"):
+                by.setdefault(p_.rsplit("::", 1)[-1], set()).add(str(c_["v"]))
+        table = {n: next(iter(v)) for n, v in by.items() if len(v) == 1 and re.fullmatch(r"[A-Z][A-Z0-9_]{2,}", n)}
+        facts._const_value_table = table
+    rx = re.compile(r"(?:[A-Za-z_][A-Za-z0-9_]*::)*([A-Z][A-Z0-9_]{2,})\b")
+    def sub(x):
+        return rx.sub(lambda m: table.get(m.group(1), m.group(0)), x)
+    return {k: ({sub(x) for x in v} if isinstance(v, (set, frozenset)) else v) for k, v in summary.items()}
+
+
 def compare_pair(run, rule, a_path, b_path, keys=ALL, subs_b=(), exempt=(), subs_a=(), norm_a=None, norm_b=None, semantic=None):
     facts = run.facts
     a, b = facts.fn(a_path), facts.fn(b_path)
@@ -737,6 +754,12 @@ def compare_pair(run, rule, a_path, b_path, keys=ALL, subs_b=(), exempt=(), subs
         d2 = S.diff(sa2, sb2, tuple(keys) + ("vardefs",), exempt=list(exempt))
         if not d2:
             sa, sb, d = sa2, sb2, d2
+    if d:
+        # a `match` arm leaves only a constant's value in the MIR where `==` keeps its name: compare once more with every named integer
+        # constant printed as its value (a name that stands for two different values in the crate is left alone)
+        d4 = S.diff(_const_values(facts, sa), _const_values(facts, sb), keys, exempt=list(exempt))
+        if not d4:
+            d = d4
     if d and semantic and SEMANTIC[semantic](a, b):
         run.ok(rule, inst, detail="written differently; both sides decide the same %s (compared as polynomial bounds)" % semantic)
         return
